@@ -309,6 +309,36 @@ def prop_connectives(sh, case):
     return fails
 
 
+def prop_subquery(sh, case):
+    """Columns of a FROM-subquery carry the datatype of the inner target they come from - also when an earlier statement of the
+    process exposed a column of the same name and position with another datatype."""
+    fails = []
+    conn, dcontext = base_connection()
+    kinds = [int, D, str, datetime.date, bool, set, dict, AMT, POS, inventory.Inventory]
+    col = A.Column
+    for a, b in itertools.permutations(kinds, 2):
+        rows = [(x, y) for x in POOLS[a][:2] + [None] for y in POOLS[b][:2] + [None]]
+        conn.tables['v'] = htables.HTable('v', [('c0', a), ('c1', b)], rows)
+        for inner_col in ('c0', 'c1', 'c0'):
+            inner = A.Select([A.Target(col(inner_col), 'x'), A.Target(A.Function('count', [A.Asterisk()]), 'n')], A.Table('v'), None,
+                             A.GroupBy([1], None) if a not in (set, dict, inventory.Inventory) and b not in (set, dict, inventory.Inventory) else None,
+                             None, None, None, None)
+            if inner.group_by is None:
+                inner = A.Select([A.Target(col(inner_col), 'x')], A.Table('v'), None, None, None, None, None, None)
+            for outer in (A.Select([A.Target(col('x'), None)], inner, None, None, None, None, None, None),
+                          A.Select(A.Asterisk(), inner, None, None, None, None, None, None),
+                          A.Select([A.Target(A.Function('first', [col('x')]), 'f'), A.Target(A.Function('last', [col('x')]), 'l')], inner,
+                                   None, None, None, None, None, None)):
+                label = f'FROM (SELECT {inner_col} AS x ...) over ({type_key(a)}, {type_key(b)})'
+                r = execute(conn, outer)
+                if r[0] == 'ok':
+                    check_result(label, r[1], r[2], dcontext, fails)
+                elif r[0] == 'raised':
+                    fails.append((f'accepted-query-raises:{type(r[1]).__name__}:subquery', f'{label}: {r[1]!r}'))
+        sh.record(f'subquery {type_key(a)} {type_key(b)}', True, None, n=9)
+    return fails
+
+
 def prop_pivot(sh, case):
     """Whatever PIVOT BY the compiler accepts must execute type-safely and announce truthful datatypes."""
     fails = []
@@ -420,7 +450,7 @@ def prop_ledger(sh, case):
     return fails
 
 
-PARTS = {'registry': prop_registry, 'connectives': prop_connectives, 'coalesce': prop_coalesce, 'pivot': prop_pivot, 'ledger': prop_ledger}
+PARTS = {'registry': prop_registry, 'connectives': prop_connectives, 'subquery': prop_subquery, 'coalesce': prop_coalesce, 'pivot': prop_pivot, 'ledger': prop_ledger}
 
 
 def run(sh):
@@ -430,6 +460,9 @@ def run(sh):
     if sh.index == 1 % sh.n:
         for sig, detail in prop_coalesce(sh, None):
             sh.fail(sig, detail, None, 'coalesce')
+    if sh.index == 4 % sh.n:
+        for sig, detail in prop_subquery(sh, None):
+            sh.fail(sig, detail, None, 'subquery')
     if sh.index == 3 % sh.n:
         for sig, detail in prop_connectives(sh, None):
             sh.fail(sig, detail, None, 'connectives')
